@@ -40,6 +40,12 @@
   * `C14_S2_no_machines_no_actions`, `C14_S2_init_quiet`, `C14_S2_trigger_update_inert`: with no
     machines the framework returns no actions and draws no randomness, so `trigger_update` never
     sets a slot, a timer or blocking and never queues a TimerBegin.
+  * `C14_monitor_accepts_model`: **the monitor accepts the model's own observation** — under the
+    hypotheses of `C14_identity_total` on the trace, the fractions, the stop setting and the
+    model's budget, and for EVERY setting of the two caps (a binding cap makes the monitor skip
+    the run; it never makes the model panic), `C14.monitor` returns `none` on the model's
+    observation of a `sim` or `sim_advanced` run; `C14_monitor_hypotheses_needed` gives, for each
+    hypothesis on the inputs, a model observation the monitor rejects without it.
 -/
 import MbVerif.Proofs.SimNoMachines
 import MbVerif.Proofs.SimWindow
@@ -467,5 +473,164 @@ theorem C14_S2_trigger_update_inert {σ : Type} (ρ : Oracle σ) (st st' : St σ
 /-- non-vacuity of the window hypothesis: one packet into an empty one-second window with the
     trace-derived limit 10 stays within the limit -/
 example : ((⟨1000000000, []⟩ : WindowCount).add 5).1 ≤ 10 := by decide
+
+/-! ### the monitor accepts the model's own observation -/
+
+/-- **The C14 monitor accepts the model's own observation.**  For every case and every run
+    (`sim` or `sim_advanced`, every filter combination, EVERY setting of the two caps): if the
+    raw input trace has at least one normal line, its `s` times and `r` times are in time order
+    and strictly within `Duration::MAX` (two network delays to spare), the limit fractions of the
+    run are in [0, 1], `continue_after_all_normal` is off (for a run through `sim` both hold by
+    construction) and the model's loop budget is at least `4·|trace| − 1`, then `C14.monitor`,
+    evaluated on the model's observation of the run, reports no failure.  With machines on either
+    side, or an explicit packets-per-second limit, the monitor does not apply and returns `none`
+    at once; otherwise the model run never panics (also under caps that cut it short: a cap only
+    removes a suffix of the run), a binding cap makes the monitor skip the run, and a run whose
+    caps do not bind ends because all normal packets were processed (`C14_progress`) and satisfies
+    `C14.holds` (`C14_identity`). -/
+theorem C14_monitor_accepts_model {σ : Type} (ρ : Oracle σ) (budget : Nat) (c : CaseIn) (r : RunIn) (orc : σ)
+    (hne : normalLines c.trace ≠ [])
+    (hs : Asc (sTimes (normalLines c.trace))) (hr : Asc (rTimes (normalLines c.trace)))
+    (hB : ∀ l ∈ normalLines c.trace, ((l.1 : Nat) : Int) + 2 * (c.delay : Int) < durMax)
+    (hfrac : Validate.fracOK (r.effArgs c.delay).fpClient = true ∧ Validate.fracOK (r.effArgs c.delay).fbClient = true ∧
+      Validate.fracOK (r.effArgs c.delay).fpServer = true ∧ Validate.fracOK (r.effArgs c.delay).fbServer = true)
+    (hcont : (r.effArgs c.delay).continueAfterAllNormal = false)
+    (hbud : 4 * (normalLines c.trace).length ≤ budget + 1) :
+    C14.monitor c (modelObs ρ budget c r orc) = none := by
+  unfold C14.monitor
+  cases hm : (c.mc.isEmpty && c.ms.isEmpty) with
+  | false => simp
+  | true =>
+    simp only [Bool.not_true, Bool.false_eq_true, if_false]
+    rw [modelObs_run]
+    cases hp : (r.adv && r.pps.isSome) with
+    | true => simp
+    | false =>
+      simp only [Bool.false_eq_true, if_false]
+      simp only [Bool.and_eq_true, List.isEmpty_iff] at hm
+      obtain ⟨hmc, hms⟩ := hm
+      have hnet : (r.effArgs c.delay).network = ⟨c.delay, none⟩ := by
+        unfold RunIn.effArgs
+        cases hadv : r.adv with
+        | false => rfl
+        | true =>
+          simp only [hadv, Bool.true_and] at hp
+          have : r.pps = none := by
+            cases hpp : r.pps with
+            | none => rfl
+            | some x => rw [hpp] at hp; simp at hp
+          simp [this]
+      have hout : modelOut ρ budget c r orc =
+          simAdvanced ρ budget [] [] (parseTraceRaw c.trace c.delay) (r.effArgs c.delay) orc := by
+        unfold modelOut; rw [hmc, hms]
+      generalize r.effArgs c.delay = a at hfrac hcont hnet hout
+      -- progress for arguments without a length cap and with a sufficient iteration cap
+      have key : ∀ a' : Args, a'.network = ⟨c.delay, none⟩ →
+          (Validate.fracOK a'.fpClient = true ∧ Validate.fracOK a'.fbClient = true ∧
+            Validate.fracOK a'.fpServer = true ∧ Validate.fracOK a'.fbServer = true) →
+          a'.continueAfterAllNormal = false →
+          (a'.maxSimIterations = 0 ∨ 4 * (normalLines c.trace).length ≤ a'.maxSimIterations) →
+          a'.maxTraceLength = 0 →
+          (simAdvanced ρ budget [] [] (parseTraceRaw c.trace c.delay) a' orc).stop = .noNormal :=
+        fun a' h1 h2 h3 h4 h5 =>
+          (C14_progress_raw ρ budget c.trace c.delay a' orc hne h1 hs hr hB h2 h3 h4 (Or.inl h5) hbud).1
+      have hnp : (modelOut ρ budget c r orc).stop.isPanic = false := by
+        rw [hout]
+        cases hst : (simAdvanced ρ budget [] [] (parseTraceRaw c.trace c.delay) a orc).stop with
+        | fault f =>
+          exfalso
+          have h1 := simAdvanced_cap_fault ρ budget [] [] _ a orc f hst
+          by_cases hit : a.maxSimIterations = 0 ∨ 4 * (normalLines c.trace).length ≤ a.maxSimIterations
+          · rw [key a.uncapped hnet hfrac hcont hit rfl] at h1
+            cases h1
+          · have h2 := simAdvanced_iters_fault ρ budget [] [] _ a.uncapped orc (4 * (normalLines c.trace).length)
+              (by show 0 < a.maxSimIterations; omega) (by show a.maxSimIterations ≤ _; omega) f h1
+            rw [key (a.uncapped.withIters (4 * (normalLines c.trace).length)) hnet hfrac hcont (Or.inr (Nat.le_refl _)) rfl] at h2
+            cases h2
+        | loopFuel =>
+          exfalso
+          by_cases hm0 : a.maxSimIterations = 0
+          · have h1 := simAdvanced_nonbinding ρ budget [] [] _ a orc (by rw [hst]; intro hc; cases hc)
+            rw [h1, key a.uncapped hnet hfrac hcont (Or.inl hm0) rfl] at hst
+            cases hst
+          · exact simAdvanced_no_loopFuel ρ budget [] [] _ a orc (by omega) hst
+        | queueEmpty | maxTrace | maxIter | noNormal => rfl
+      rw [modelObs_res, res_ok hnp]
+      simp only []
+      cases hcb : capsDoNotBind a (normalLines c.trace).length
+          ((modelOut ρ budget c r orc).trace.map (SimEvent.shift (obsT0 c))).length with
+      | false => simp
+      | true =>
+        simp only [Bool.not_true, Bool.false_eq_true, if_false]
+        unfold capsDoNotBind at hcb
+        rw [List.length_map, hout] at hcb
+        simp only [Bool.and_eq_true, Bool.or_eq_true, beq_iff_eq, decide_eq_true_eq] at hcb
+        have hnmt : (simAdvanced ρ budget [] [] (parseTraceRaw c.trace c.delay) a orc).stop ≠ .maxTrace := by
+          intro hmt
+          have := simAdvanced_maxTrace ρ budget [] [] _ a orc hmt
+          rcases hcb.1 with h | h <;> omega
+        have hstop : (simAdvanced ρ budget [] [] (parseTraceRaw c.trace c.delay) a orc).stop = .noNormal := by
+          rw [simAdvanced_nonbinding ρ budget [] [] _ a orc hnmt]
+          exact key a.uncapped hnet hfrac hcont
+            (by rcases hcb.2 with h | h; exact Or.inl h; exact Or.inr (by show _ ≤ a.maxSimIterations; omega)) rfl
+        have hh := C14_identity_raw ρ budget c.trace c.delay a orc hnet hs hr
+          (fun l hl => by have := hB l hl; omega) hstop
+        rw [hout]
+        unfold obsT0
+        rw [hh]
+        simp
+
+/-- non-vacuity of `C14_monitor_accepts_model`: the four-line demo trace (one padding line)
+    without machines, 10 ms delay, `sim_advanced` with an iteration cap of 40 and only client
+    events kept, budget 11: every hypothesis holds, and the monitor evaluates to `none` -/
+example :
+    normalLines demoCase0.trace ≠ [] ∧ Asc (sTimes (normalLines demoCase0.trace)) ∧
+    Asc (rTimes (normalLines demoCase0.trace)) ∧
+    (∀ l ∈ normalLines demoCase0.trace, ((l.1 : Nat) : Int) + 2 * (demoCase0.delay : Int) < durMax) ∧
+    ((demoRun "f10" 0 40 false true false).effArgs demoCase0.delay).continueAfterAllNormal = false ∧
+    4 * (normalLines demoCase0.trace).length ≤ 11 + 1 := by
+  unfold Asc
+  decide +kernel
+
+example : C14.monitor demoCase0 (modelObs zeroOracle 11 demoCase0 (demoRun "f10" 0 40 false true false) ()) = none := by
+  simp only [modelObs_eq_S]
+  decide +kernel
+
+/-- not covered by the theorem (`hcont`): a run that continues after the last normal packet goes
+    on to serve the queued NormalRecv events and ends with an empty queue; on the demo case the
+    monitor accepts that observation as well (11 + 1 iterations) -/
+example : (modelOut zeroOracle 100 demoCase0 (demoRun "u" 0 0 true false false) ()).stop = .queueEmpty ∧
+    (modelOut zeroOracle 100 demoCase0 (demoRun "u" 0 0 true false false) ()).stream.length = 12 ∧
+    C14.monitor demoCase0 (modelObs zeroOracle 100 demoCase0 (demoRun "u" 0 0 true false false) ()) = none := by
+  simp only [modelObs_eq_S]
+  decide +kernel
+
+/-- with the padding machine on the client side the monitor does not apply -/
+example : C14.monitor demoCase (modelObs zeroOracle 100 demoCase (demoRun "u" 0 40 true false false) ()) = none := by
+  simp only [modelObs_eq_S]
+  decide +kernel
+
+/-- **Each hypothesis excludes an observation of the model that the monitor rejects** (all without
+    machines, through `sim` or `sim_advanced` without caps):
+    * a packet exactly `Duration::MAX` after the first one (`hB`, cf. `C14_strict_bound_needed`):
+      it is never served, "output is not the input trace";
+    * a trace without a normal line (`hne`): `sq.get_first_time().unwrap()` panics;
+    * a limit fraction of 2.0 (`hfrac`): `Framework::new(..).unwrap()` panics;
+    * a model budget below `4·|trace| − 1` without an iteration cap (`hbud`): the observation is
+      the model's own "loopfuel" class — an artefact of the model, the driver's budget is far above;
+    * a trace that is not in time order (`hs`): `parse_trace` derives a packets-per-second limit
+      of 20 from a trace with 22 packets in the first second, the bottleneck delays packets, and
+      the output is not the input trace. -/
+theorem C14_monitor_hypotheses_needed :
+    (C14.monitor farCase (modelObs zeroOracle 8 farCase (demoSim 0 false) ())).isSome = true ∧
+    (C14.monitor { demoCase0 with trace := [⟨5, .sp⟩] }
+      (modelObs zeroOracle 8 { demoCase0 with trace := [⟨5, .sp⟩] } (demoSim 0 false) ())).isSome = true ∧
+    (C14.monitor demoCase0 (modelObs zeroOracle 100 demoCase0
+      { demoRun "u" 0 40 false false false with
+        args := { demoArgs 0 40 false false false with fpClient := 0x4000000000000000 } } ())).isSome = true ∧
+    (C14.monitor demoCase0 (modelObs zeroOracle 5 demoCase0 (demoRun "u" 0 0 false false false) ())).isSome = true ∧
+    (C14.monitor zigzagCase (modelObs zeroOracle 1000 zigzagCase (demoSim 0 false) ())).isSome = true := by
+  simp only [modelObs_eq_S]
+  refine ⟨?_, ?_, ?_, ?_, ?_⟩ <;> decide +kernel
 
 end Mb.C14
